@@ -607,6 +607,15 @@ func writeNodes(w io.Writer, level int, nodes []Node, indent bool) error {
 		trailing := SpaceVertical
 		if wst, isWhitespaceTrailer := n.(WhitespaceTrailer); isWhitespaceTrailer {
 			trailing = wst.Trailing()
+		} else if c, isGoComment := n.(GoComment); isGoComment && !c.Multiline {
+			// A single line comment has to end its line.
+			trailing = SpaceVertical
+		} else if !indent || !nextNodeIsWhitespace(nodes, i) {
+			// The node doesn't record its own trailing space. Don't invent any where the source had
+			// none, it would be rendered inside control flow and templ element blocks. Inside a
+			// single-line element whitespace between children is never rendered, and breaking
+			// the line there would make formatting unstable.
+			trailing = SpaceNone
 		}
 		// Put a newline after the last node in indentation mode.
 		if indent && ((nextNodeIsBlock(nodes, i) || i == len(nodes)-1) || shouldAlwaysBreakAfter(n)) {
@@ -632,6 +641,14 @@ func shouldAlwaysBreakAfter(node Node) bool {
 		return strings.EqualFold(el.Name, "br") || strings.EqualFold(el.Name, "hr")
 	}
 	return false
+}
+
+func nextNodeIsWhitespace(nodes []Node, i int) bool {
+	if len(nodes)-1 < i+1 {
+		return false
+	}
+	_, isWhitespace := nodes[i+1].(Whitespace)
+	return isWhitespace
 }
 
 func nextNodeIsBlock(nodes []Node, i int) bool {
